@@ -153,6 +153,12 @@ func genWire(r *Rand, g GenCfg) Plan {
 	p := &WirePlan{}
 	p.Cast = genCast(r, g.Tier, 2, 4)
 	p.Tokens = []TokSpec{wireTokSpec(r, len(p.Cast), "t0", g.Focus), wireTokSpec(r, len(p.Cast), "t1", g.Focus)}
+	// the issuer of the base token takes the six key algorithms in turn (by run index), so that
+	// every batch enumerates tokens of every algorithm the DID package can generate
+	if iss := p.Tokens[0].iss(); iss >= 0 && len(p.Cast) > 0 {
+		alg := allAlgs[g.Index%uint64(len(allAlgs))]
+		p.Cast[iss%len(p.Cast)] = Principal{alg, int(g.Index/6) % poolSize[alg]}
+	}
 	// one run in sixteen carries a token whose signed part is larger than 64 KiB, one in sixteen a
 	// token with wide collections (by run index, so that every batch has them)
 	huge := g.Index%16 == 7
